@@ -2234,9 +2234,48 @@ static uint64_t vf_ncases(int tier)
     return plan_periodic + plan_periodic / 80;
 }
 
+/* DECIMAL-GRID histories: gains, limits, set points and feedback are multiples of 0.1 (what people type), none of them representable, so sums and differences are
+   inexact in a correlated way and an unsaturated output lands within one rounding of a limit again and again - which integers / dyadics (everything exact) and
+   log-uniform reals (never that close) do not produce. Judged: the LIMIT clause only, with exact comparisons, in all three modes of the plain controller - the pinned
+   code clamps the value it returns, so it holds to the last bit (seeded change C12-N: the incremental form tests the increment against the remaining headroom and
+   then adds it; decision and value are rounded separately and out + inc ends one ulp beyond the limit, e.g. limits +-0.3, kp = 1, errors -0.1 then +0.3). */
+static void case_pid_decimal(vf_rng *r)
+{
+    a_pid c;
+    unsigned const L = 40 + (unsigned)vf_below(r, 200);
+    int const mode = (int)vf_below(r, 3);
+    double const kp = (double)vf_range(r, -30, 30) / 10, ki = (double)vf_range(r, 0, 20) / 10, kd = (double)vf_range(r, -10, 10) / 10;
+    double set = 0, fdb = 0;
+    memset(&c, 0, sizeof c);
+    c.outmax = (double)vf_range(r, 1, 30) / 10;
+    c.outmin = vf_chance(r, 1, 2) ? -c.outmax : -(double)vf_range(r, 0, 30) / 10;
+    c.summax = vf_chance(r, 1, 2) ? (double)vf_range(r, 1, 60) / 10 : DBL_MAX;
+    c.summin = -c.summax;
+    a_pid_set_kpid(&c, kp, ki, kd);
+    a_pid_init(&c);
+    vf_log("plain PID on the decimal grid: mode %d, kp %.1f ki %.1f kd %.1f, out in [%.1f, %.1f], sum in [%g, %g], %u steps", mode, kp, ki, kd, c.outmin, c.outmax, c.summin, c.summax, L);
+    for (unsigned k = 0; k < L; ++k)
+    {
+        double out;
+        if (vf_chance(r, 1, 3)) { set = (double)vf_range(r, -20, 20) / 10; }
+        fdb = vf_chance(r, 1, 4) ? fdb : set - (double)vf_range(r, -12, 12) / 10;
+        out = mode == 0 ? a_pid_run(&c, set, fdb) : mode == 1 ? a_pid_pos(&c, set, fdb) : a_pid_inc(&c, set, fdb);
+        ++vf.evals;
+        VF_COUNT("pid-decimal-grid-limit-clause");
+        if (mode && (!(out <= c.outmax) || !(out >= c.outmin) || out != c.out))
+        {
+            vf_viol(mode == 1 ? "pid_pos/out-outside-limits/decimal-grid" : "pid_inc/out-outside-limits/decimal-grid", "step %u: set %.17g fdb %.17g -> out %.17g (field %.17g), limits [%.17g, %.17g]; kp %.1f ki %.1f kd %.1f", k, set, fdb, out, c.out,
+                    c.outmin, c.outmax, kp, ki, kd);
+            return;
+        }
+        /* the integral is limited by conditional integration (it may pass its limit by one step): judged by the main histories, not here */
+    }
+}
+
 static void vf_case(uint64_t c, vf_rng *r)
 {
     unsigned const slot = (unsigned)(c % 20);
+    if (c % 4 == 1) { vf_rng dr; vf_rng_seed(&dr, vf.seed, vf_hash_str("C12-decimal"), c); for (int i = 0; i < 6; ++i) { case_pid_decimal(&dr); } }
     uint64_t const blk = c / 20;
     /* every fourth block, seven of the 20 slots (1 plain exact, 1 plain real, 2 fuzzy exact, 1 fuzzy real, 2 neuron) run the reconfiguration-dense
        flavour of the same case (histories of <= 160 steps, so the share is taken from the existing plan, not added to it) */
